@@ -1,5 +1,6 @@
-import Amgcl.Proofs.DistAmgFinal
+import Amgcl.Proofs.DistAmgIndep
 import Amgcl.Properties.C12
+import Amgcl.Properties.C06
 /-!
 # C12 (continued) — the distributed multigrid cycle is the serial cycle of the gathered hierarchy
 
@@ -25,6 +26,8 @@ consolidated system, scatter).
   (concatenating the rank slices of) the result of the distributed cycle / `apply` is the serial `Amg.cycle` /
   `Amg.apply` of the gathered hierarchy (`gatherLevels`: blocks assembled with `Dist.assemble`, the master's
   consolidated matrix, concatenated smoother vectors) on the gathered input — `x` and all level vectors.
+* `dist_apply_scratch_indep` — C02's independence of the level vectors (hence of earlier applications) transferred:
+  the distributed preconditioner is ONE function of `rhs` over a whole Krylov run.
 * `mpi_amg_setup` — hence `mpi::amg` satisfies the hypothesis `Setup.pd` of `C12.lockstep_refines_serial`
   (`lockstep_cg_mpi_amg`: distributed CG preconditioned with distributed AMG = serial CG with serial AMG).
 
@@ -188,6 +191,28 @@ theorem spai0_refines (norm : K → K) :
 
 end smoothers
 
+section indep
+variable {K S T : Type} [CommRing K] [DecidableEq K] [Nontrivial K]
+
+/-- **`dist_apply_scratch_indep`**: on a complete well-formed hierarchy (`DHierFull`: what `mpi::amg::init` builds)
+with smoothers that are `Relax.Smoother.Good` (C06) and a linear coarse solver, `mpi::amg::apply` returns the same `x`
+whatever the level vectors `f`, `u`, `t` contain on entry — in particular whatever earlier applications left there.
+This is C02 `apply_scratch_indep` carried over by the simulation; it is what makes the preconditioner of
+`mpi_amg_setup` (taken with fixed level vectors) the preconditioner of every call of a Krylov run. -/
+theorem dist_apply_scratch_indep (prm : Amg.Params) (dsm : DSmoother K S) (sm : Relax.Smoother K T) (gs : List S → T)
+    (direct : CRS K → Vec K → Vec K) (hsm : SmootherRef dsm sm gs)
+    (hgood : ∀ A s, sm.setup A = .ok s → sm.Good s A)
+    (d : DLevel K S) (dls : List (DLevel K S)) (hOK : DHierOK dsm direct (d :: dls)) (hF : DHierFull (d :: dls))
+    (hdir : ∀ Ad ∈ (gatherLevels gs (d :: dls) : List (Amg.Level K T)).filterMap (·.solve),
+      Amg.DirectOK (direct Ad) Ad.nrows)
+    (dscr dscr' : List (DScratch K)) (drhs : DVec K)
+    (hscr : DScrsOK ((d :: dls).map (·.part)) dscr) (hscr' : DScrsOK ((d :: dls).map (·.part)) dscr')
+    (hrhs : DVecOK d.part drhs) :
+    (dapply prm dsm direct (d :: dls) dscr drhs).1 = (dapply prm dsm direct (d :: dls) dscr' drhs).1 :=
+  dapply_indep prm dsm sm gs direct hsm hgood d dls hOK hF hdir dscr dscr' drhs hscr hscr' hrhs
+
+end indep
+
 section cg
 variable {K : Type} [Field K] [DecidableEq K] [LT K] [DecidableLT K]
 open Amgcl.Solver
@@ -291,5 +316,36 @@ example : concatVec (directSolve mgDirect (directInit 1 (split mgA1 mgQ mgQ) mgQ
       (splitVec #[0, 0] mgQ)) = mgDirect (assemble (split mgA1 mgQ mgQ) mgQ) (concatVec (splitVec #[3, 0] mgQ)) :=
   (dist_direct_solve_eq_serial mgDirect _ mgQ (distOK_split _ _ _ ⟨by decide, rfl, by decide, by decide⟩)
     (fun _ _ => rfl) _ _ (dvecOK_split _ _ (by decide)) (dvecOK_split _ _ (by decide))).1
+
+/-- a second coarse level: relaxation instead of the direct solver -/
+def mgL1r : DLevel Rat (Vec Rat) :=
+  { part := mgQ, A := some (split mgA1 mgQ mgQ), relax := some (splitVec (Relax.diagInv mgA1) mgQ) }
+
+theorem mg_ok_r : DHierOK (distJacobi (2 / 3 : Rat)) mgDirect [mgL0, mgL1r] := by
+  have hA0 : PartOK mgA0 mgP mgP := ⟨by decide, rfl, by decide, by decide⟩
+  have hA1 : PartOK mgA1 mgQ mgQ := ⟨by decide, rfl, by decide, by decide⟩
+  refine ⟨mg_ok.1, ⟨?_, ?_, ?_, ?_, ?_⟩, trivial⟩
+  · intro dA h; cases h; exact distOK_split _ _ _ hA1
+  · intro dP h; cases h
+  · intro dR h; cases h
+  · intro st h; cases h
+  · intro ss h; cases h
+    exact ⟨_, rfl, ((distJacobi_ref (2 / 3 : Rat) mgA1 mgQ hA1).1 (by decide)).1⟩
+
+/-- `dist_apply_scratch_indep` instantiated: fresh level vectors versus level vectors full of other data -/
+example (junk : List (DScratch Rat)) (hj : DScrsOK ([mgL0, mgL1r].map (·.part)) junk) :
+    (dapply mgPrm (distJacobi (2 / 3 : Rat)) mgDirect [mgL0, mgL1r] (freshDScratch [mgL0, mgL1r])
+        (splitVec #[1, 2, 3, 4] mgP)).1
+      = (dapply mgPrm (distJacobi (2 / 3 : Rat)) mgDirect [mgL0, mgL1r] junk (splitVec #[1, 2, 3, 4] mgP)).1 :=
+  dist_apply_scratch_indep mgPrm _ (Relax.jacobi (2 / 3 : Rat)) concatVec mgDirect (jacobi_refines (2 / 3 : Rat))
+    (fun A s h => by
+      have hs : s.size = A.nrows := by
+        simp only [Relax.jacobi] at h
+        split at h
+        · cases h; simp [Relax.diagInv]
+        · cases h
+      exact C06.jacobi_affine_scratch_indep (2 / 3 : Rat) s A hs)
+    mgL0 [mgL1r] mg_ok_r ⟨rfl, rfl, rfl, rfl, Or.inr ⟨rfl, rfl, rfl⟩⟩ (by intro Ad h; simp [gatherLevels, mgL0, mgL1r] at h)
+    _ _ _ (dscrsOK_fresh [mgL0, mgL1r]) hj (dvecOK_split _ _ (by decide))
 
 end Amgcl.C12
